@@ -420,7 +420,7 @@ def rule_pvguard(fx, rep, neg):
     if not found_flag:
         ok = False
         rep.violation("C08-PVGUARD", "C08-PVGUARD/flag", "negamax has no PV-node flag of the form `alpha != beta - Eval(1)`", {"fn": neg.name, "file": neg.file, "line": neg.line})
-    rep.rule("C08-PVGUARD", n, 7, ok, "branches on static eval / hash-entry contents under !is_pv")
+    rep.rule("C08-PVGUARD", n, 4, ok, "branches on static eval / hash-entry contents under !is_pv")
 
 
 def ordinal(neg, bb, why):
@@ -584,7 +584,7 @@ def rule_matedist(fx, rep, neg):
     rep.sample({"rule": "C08-MATEDIST", "from_position": [str(x) for x in p], "from_root": [str(x) for x in r]})
     if not good:
         bad("mirror", f"with_mate_distance_from_position {p} and with_mate_distance_from_root {r} are not mirror images (same thresholds, opposite adjustments)")
-    rep.rule("C08-MATEDIST", n, 5, ok, "mate-distance conversion on store / hit, mirrored conversions")
+    rep.rule("C08-MATEDIST", n, 3, ok, "mate-distance conversion on store / hit, mirrored conversions")
 
 
 def rule_depth(fx, rep):
@@ -602,12 +602,27 @@ def rule_depth(fx, rep):
     rep.obligation(len(reports) == 1)
     if len(reports) != 1:
         bad("reports", f"iterative deepening has {len(reports)} report sites (expected one per iteration)")
+    # the SearchInfo literal: in the iteration loop itself, or in a private helper it calls (the helper's parameters are then
+    # replaced by the call's arguments)
+    from facts import substitute_args
+    lits = []
     for bb, j, s in idb.stmts():
         rv = s.get("rv")
         if s["k"] == "assign" and rv and rv["k"] == "agg" and rv.get("agg") == "adt" and norm(rv["adt"]).endswith("search::SearchInfo"):
+            lits.append((idb.expr(dict(zip(rv["fields"], rv["ops"]))["depth"], expand_named=True, at=bb), s))
+    for cbb, ct in idb.calls():
+        hb = fx.body(callee_name(ct)) if callee_name(ct) else None
+        if hb is None or hb is idb or not norm(hb.name).startswith("engine::search::") or hb.kind == "Closure":
+            continue
+        for hbb, hj, hs in hb.stmts():
+            rv = hs.get("rv")
+            if hs["k"] == "assign" and rv and rv["k"] == "agg" and rv.get("agg") == "adt" and norm(rv["adt"]).endswith("search::SearchInfo"):
+                he = hb.expr(dict(zip(rv["fields"], rv["ops"]))["depth"], expand_named=True, at=hbb)
+                actual = tuple(idb.expr(a, expand_named=True, at=cbb) for a in ct["args"])
+                lits.append((substitute_args(he, actual), {"line": ct.get("line")}))
+    for e, s in lits:
+        if True:
             n += 1
-            m = dict(zip(rv["fields"], rv["ops"]))
-            e = idb.expr(m["depth"], expand_named=True, at=bb)
             rng = [x for x in walk(e) if isinstance(x, tuple) and x and x[0] == "call" and isinstance(x[1], str) and x[1].endswith("RangeInclusive::new")]
             nxt = find_calls(e, "Iterator>::next", "range::next", "RangeInclusive<A>>::next", "iter::range::next")
             d = deep_strip(e)
